@@ -120,7 +120,7 @@ def run_kind(family, kind, timeout_ms=None, config=None):
                                            "reason": f"engine error: {tb}", "time": 0.0, "kind": "engine"})
                 continue
             ob = core.Obligation(f"no-exception[{type(pr.exc).__name__}]", pr.ctx.hyps, pr.ctx.schemas, pr.ctx.pool,
-                                 z3.BoolVal(False), kind="noexc",
+                                 z3.BoolVal(False), kind="noexc", derivers=pr.ctx.derivers,
                                  info={"exception": tb, "at": f"{os.path.basename(where.filename)}:{where.lineno}"})
             obs.append(ob)
         # vacuity guard: the hypotheses under which this path's obligations were proved must be satisfiable
@@ -148,6 +148,7 @@ def run_kind(family, kind, timeout_ms=None, config=None):
             if rec["status"].startswith("refuted") and ob.model is not None:
                 rec["model"] = str(ob.model)[:1500]
                 try:
+                    pr.ctx.ghost["_obligation"] = ob.name
                     case = family.concretise(kind, ob.model, pr.ctx.ghost)
                 except Exception as e:
                     case = None
